@@ -19,7 +19,7 @@ from sim.spec import spec_kinds
 from .base import Check, Verdict, resolve_perturb
 
 OBJECTIVES = ["MinimizeMakespan", "MinimizeFlowtime", "TasksStartLatest", "TasksStartEarliest", "Priorities", "MinimizeGreatestStartTime",
-              "MaximizeResourceUtilization", "MinimizeResourceCost", "MaximizeIndicator", "MinimizeIndicator"]
+              "MaximizeResourceUtilization", "MinimizeResourceCost", "MaximizeIndicator", "MinimizeIndicator", "MaximizeIndicator", "MinimizeIndicator"]
 SAFE_CONSTRAINTS = ["TaskStartAfter", "TaskEndBefore", "TaskPrecedence", "TasksStartSynced", "TasksEndSynced", "TasksDontOverlap",
                     "ResourceUnavailable", "OptionalTaskForceSchedule", "ForceScheduleNOptionalTasks"]
 VALIDITY_PROPS = frozenset({"C01", "C02", "C03", "C04"})
@@ -55,7 +55,8 @@ class C07(Check):
             n_tasks=(1, 5 if big else 4), p_optional=0.2, p_zero=0.08, p_variable=0.35, p_release=0.2, p_due=0.1, p_priority=0.5,
             n_workers=(0, 3), p_select=0.35, p_cumulative=0.15, p_assign=0.75, p_dynamic=0.1, p_work=0.15, p_cost=0.6,
             p_horizon=0.8, slack=(0, 6), constraints=SAFE_CONSTRAINTS, n_constraints=(0, 2),
-            indicators=["FromMathExpression", "ResourceUtilization", "NumberTasksAssigned", "ResourceCost"], n_indicators=(1, 3),
+            indicators=["FromMathExpression", "FromMathExpression", "ResourceUtilization", "NumberTasksAssigned", "ResourceCost"], n_indicators=(1, 3),
+            p_indicator_bounds=0.6,
             objectives=OBJECTIVES, n_objectives=(2, 3) if multi else (1, 1),
         )
         spec = gen.gen_spec(keyed_rng(run_seed, "spec"), prof)
@@ -107,6 +108,19 @@ class C07(Check):
                 stepA["env"] = env
         elif rng.random() < 0.3:
             cfgA["save_intermediate_states"] = True
+        # an objective whose indicator declares bounds: let the engine's first model sit on
+        # a bound - the far one (the loop must go on) or the near one (the "bound reached" exit)
+        if nobj == 1 and spec["objectives"][0].get("indicator"):
+            ind = next((i for i in spec["indicators"] if i["id"] == spec["objectives"][0]["indicator"]), None)
+            if ind is not None and ind.get("bounds") and rng.random() < 0.7:
+                lo, hi = ind["bounds"]
+                far, near = (hi, lo) if direction == "min" else (lo, hi)
+                env = stepA.setdefault("env", [])
+                if not env:
+                    env.append({})
+                if "verdict" not in env[0]:
+                    env[0] = dict(env[0], steer={"mode": "pin", "pins": {"OBJ": far if rng.random() < 0.7 else near}, "tag": "bound"})
+                plan["fault_free"] = False
         script.append(stepA)
         # second optimiser
         cfgB = {"optimizer": "optimize"}
